@@ -1,6 +1,7 @@
 """C03 - every command gets exactly one reply, in order, without needing more input."""
 import json
 import connlib
+import cmdlib
 import vlib
 
 QUICK = dict(pipes="MC_C03_quick.cfg", cmds="MC_Cmd_quick.cfg", cmd_sample=1)
@@ -59,6 +60,8 @@ def pattern_stress():
 def run(ctx):
     P = THOROUGH if ctx.tier == "thorough" else QUICK
     ctx.build()
+    # beside everything else (it mostly sleeps): connections on the plain and the TLS port that are quiet between two requests
+    idle = None if ctx.replay else cmdlib.IdleProbe(ctx, [1000, 11000, 31000, 61000, 125000] if ctx.tier == "thorough" else [1000, 11000, 31000])
     if ctx.replay:
         scenarios = [json.load(open(ctx.replay))["scenario"]]
         npipes = ncmds = 0
@@ -100,6 +103,7 @@ def run(ctx):
         shapes.add(tuple(n.split(" ")[0] + ":" + str(len(n.split(" "))) for n in names))
         if len(samples) < 3 and sc % 7919 == 3:
             samples.append({"requests": names, "events": len(lines[sc]), "accepted": sc in accepted})
+    nidle = idle.finish() if idle else 0
     return ctx.finish("model_checking", {
         "traces_validated_against_impl": len(scs),
         "evaluations": len(scs),
